@@ -28,4 +28,13 @@ let () =
       else if second_differs then specfail id "concat_of_the_same_slice_differs_the_second_time"
       else if slice_written then specfail id "concat_writes_to_the_callers_slice"
       else ok id "+concat");
+  (* html_concat_raw id <n> <raw piece 1> .. <raw piece n> <HTMLConcat of the pieces> <the same call again> *)
+  reg "html_concat_raw" (fun f ->
+      let id = f.(1) in
+      let n = int_of_string f.(2) in
+      let parts = List.init n (fun i -> bytes_of_hex f.(3 + i)) in
+      let expect = List.concat parts in
+      if bytes_of_hex f.(3 + n) <> expect then specfail id "concat_of_raw_pieces_is_not_concatenation"
+      else if bytes_of_hex f.(4 + n) <> expect then specfail id "concat_of_the_same_slice_differs_the_second_time"
+      else ok id "+concat_raw");
   reg_bridges "C10" V.c10_bridges
